@@ -10,8 +10,23 @@
       once; no ADD_POST / REM_POST for a pipe whose ADD_PRE was due (a callback for it was
       registered when the pipe was added) but not delivered, nor for a pipe added while no
       callback at all was registered;
-    * a pipe that got ADD_POST has got REM_POST (if still registered) by the time its
-      socket's close returns, and no notification arrives in a later step;
+    * the registration that counts for a notification is the one in force when the library decides to
+      call back: the step in which the transport created the pipe (`pipe p`) for ADD_PRE, the step in
+      which the protocol started using it (`parm p`) for ADD_POST, the step in which it was reaped
+      (`pclosed p`) for REM_POST.  Registrations change only through `notify` ops, so they are constant
+      during a step, except in a `race` step one side of which is a `notify`: there the judge cannot
+      know which registration was read and waives the three clauses below for the pipes created / reaped
+      in that step (`unsure`, `remWaived`);
+    * a pipe that reached its socket while ADD_PRE was registered has got ADD_PRE by the end of that
+      step and before the protocol started using it;
+    * a pipe that the protocol started using while ADD_POST was registered (and some notification was
+      registered when it was added) has got ADD_POST by the end of that step and before any REM_POST,
+      unless (in a `race` step only) it was reaped before ADD_POST could be delivered;
+    * a pipe that the protocol had started using (it got past the point where ADD_POST is delivered,
+      whether or not ADD_PRE / ADD_POST were registered) and that was added while some notification was
+      registered has got REM_POST by the time its socket's close returns, if REM_POST was registered when
+      it was reaped (for a pipe not yet reaped: when the close returns); no notification arrives in a
+      later step;
     * a pipe closed inside ADD_PRE never gets ADD_POST and the transport never sees a
       receive or send started on it;
     * a dialer never has two live pipes; after its pipe is lost or a background dial fails
@@ -41,6 +56,10 @@ structure JPipe where
   closedInPre : Bool     -- the ADD_PRE callback closed the pipe
   lost : Bool := false   -- the transport saw the pipe closed
   remWaived : Bool := false  -- no REM_POST callback was registered when the pipe was lost
+  started : Bool := false    -- the protocol started using the pipe: it got past the point of ADD_POST
+  preWait : Bool := false    -- ADD_PRE is owed: registered when the pipe reached the socket, not yet delivered
+  postWait : Bool := false   -- ADD_POST is owed: registered when the protocol started the pipe, not yet delivered
+  unsure : Bool := false     -- added while a `notify` raced: which registration the library read is unknown
 deriving Repr
 
 structure JEp where
@@ -92,6 +111,13 @@ def isRace : LOp → Bool
   | .race .. => true
   | _ => false
 
+def isNotify : LOp → Bool
+  | .notify .. => true
+  | _ => false
+
+/-- a step in which a `notify` races with another op: the registration read by the library is unknown -/
+def tol (op : LOp) : Bool := isRace op && (flat op).any isNotify
+
 def closeErr (rv : Nat) : Bool := rv == 7 || rv == 20 || rv == 999
 
 def tgtSock (j : J) : Tgt → Option Nat
@@ -102,14 +128,15 @@ def tgtSock (j : J) : Tgt → Option Nat
 def closing (op : LOp) : List Nat :=
   (flat op).filterMap fun | .close s => some s | .close2 s => some s | _ => none
 
-/-- "REM_POST no later than the return of the socket's close" -/
+/-- "REM_POST no later than the return of the socket's close": owed to every pipe of the socket that the
+protocol had started using and that was added while some notification was registered, if REM_POST was
+registered when the pipe was reaped (`remWaived` otherwise), or now for a pipe not reaped yet -/
 def remDue (j : J) (s : Nat) : J :=
   let m := (j.sock s).mask
-  if m &&& 4 == 0 then j
-  else
-    match j.pipes.find? (fun (_, p) => p.sock == s && p.evs.contains .post && !p.evs.contains .rem && !p.remWaived) with
-    | some (i, _) => j.fail14 s!"socket {s} close returned but pipe {i} that got ADD_POST has no REM_POST"
-    | none => j
+  match j.pipes.find? (fun (_, p) => p.sock == s && (p.started || p.evs.contains .post) && p.anyReg && !p.unsure &&
+      !p.evs.contains .rem && !p.remWaived && (p.lost || m &&& 4 != 0)) with
+  | some (i, _) => j.fail14 s!"socket {s} close returned but pipe {i} that the protocol had started using has no REM_POST"
+  | none => j
 
 /-- ops applied before the step's events are looked at -/
 def preOp (race : Bool) (outs : List LOut) (j : J) (op : LOp) : J :=
@@ -168,7 +195,8 @@ def onOut (op : LOp) (j : J) (o : LOut) : J :=
         let j := if ep.dialer && j.pipes.any (fun (_, q) => q.ep == e && !q.lost) then
             j.fail14 s!"dialer {e} owns two pipes at a time" else j
         { j with pipes := put j.pipes p { ep := e, sock := ep.sock, preReg := sk.mask &&& 1 != 0, anyReg := sk.mask != 0,
-                                          closedInPre := sk.cip && sk.mask &&& 1 != 0 } }
+                                          closedInPre := sk.cip && sk.mask &&& 1 != 0 && !tol op,
+                                          preWait := sk.mask &&& 1 != 0 && !tol op, unsure := tol op } }
       | none => j
     | none => j
   | .pev p k =>
@@ -178,21 +206,31 @@ def onOut (op : LOp) (j : J) (o : LOut) : J :=
       | some q =>
         let j := if q.evs.contains k then j.fail14 s!"pipe {p}: {showPEv k} delivered twice"
           else if q.evs.any (fun e => e.rank ≥ k.rank) then j.fail14 s!"pipe {p}: {showPEv k} delivered after a later notification"
-          else if k != .pre && !q.evs.contains .pre && (q.preReg || !q.anyReg) then
+          else if k != .pre && !q.evs.contains .pre && ((q.preReg || !q.anyReg) && !q.unsure) then
             j.fail14 s!"pipe {p}: {showPEv k} without ADD_PRE"
           else if k == .post && q.closedInPre then j.fail14 s!"pipe {p} was closed inside ADD_PRE but got ADD_POST"
+          else if k == .rem && q.postWait then j.fail14 s!"pipe {p}: REM_POST before the ADD_POST that was due"
           else if (j.sock q.sock).closedBefore then j.fail14 s!"pipe {p}: {showPEv k} after its socket's close had returned"
           else j
-        { j with pipes := upd j.pipes p.toNat fun q => { q with evs := q.evs ++ [k] } }
+        { j with pipes := upd j.pipes p.toNat fun q =>
+            { q with evs := q.evs ++ [k], preWait := q.preWait && k != .pre, postWait := q.postWait && k != .post } }
   | .parm p | .psend p =>
     match j.pipes.lookup p with
-    | some q => if q.closedInPre then j.fail14 s!"pipe {p} was closed inside ADD_PRE but the protocol started using it" else j
+    | some q =>
+      -- is ADD_POST owed?  the registration is read now, when the protocol's start has succeeded
+      let due := !q.started && !q.lost && !q.unsure && q.anyReg && (j.sock q.sock).mask &&& 2 != 0 && !q.evs.contains .post
+      let j := if q.closedInPre then j.fail14 s!"pipe {p} was closed inside ADD_PRE but the protocol started using it"
+        else if q.preWait then j.fail14 s!"pipe {p}: the protocol started using it before the ADD_PRE that was due"
+        else j
+      { j with pipes := upd j.pipes p fun q => { q with started := true, postWait := q.postWait || due } }
     | none => j
   | .pclosed p =>
     match j.pipes.lookup p with
     | some q =>
-      let waived := (j.sock q.sock).mask &&& 4 == 0
-      let j := { j with pipes := upd j.pipes p fun q => { q with lost := true, remWaived := q.remWaived || waived } }
+      let waived := (j.sock q.sock).mask &&& 4 == 0 || tol op
+      -- a pipe reaped before ADD_POST could be delivered never reached ADD_POST (possible in a `race` step only)
+      let j := { j with pipes := upd j.pipes p fun q =>
+        { q with lost := true, remWaived := q.remWaived || waived, postWait := q.postWait && !isRace op } }
       match j.eps.lookup q.ep with
       | some ep =>
         if ep.dialer && !ep.closed && !q.lost then
@@ -270,6 +308,13 @@ def postOp (outs : List LOut) (j : J) (op : LOp) : J :=
 
 /-- end of step: the library is quiescent -/
 def quiescent (j : J) : J :=
+  let j := match j.pipes.find? (fun (_, q) => q.preWait) with
+    | some (i, _) => j.fail14 s!"pipe {i} reached its socket while ADD_PRE was registered but ADD_PRE was not delivered"
+    | none => j
+  let j := match j.pipes.find? (fun (_, q) => q.postWait) with
+    | some (i, _) =>
+      j.fail14 s!"pipe {i} was started by the protocol while ADD_POST was registered but ADD_POST was not delivered"
+    | none => j
   let j := match j.eps.find? (fun (_, x) => x.dialer && !x.closed &&
         match x.redialSince with | some t0 => decide ((j.now : Int) ≥ t0 + max x.cfgMax 0) | none => false) with
     | some (e, x) =>
